@@ -35,7 +35,8 @@ func init() {
 		if tier == "thorough" {
 			b = 3
 		}
-		pool := vsched.Config{PoolPoints: false}
+		// thorough: pool operations are scheduling points and "the pool dropped the buffer" is a choice
+		pool := vsched.Config{PoolPoints: tier == "thorough"}
 		out := []*vexplore.Scenario{
 			{Name: "recv-retain-per-kind", Mode: "enum", Reset: kit.ResetGlobals, Body: recvRetain, NeedCounters: []string{"retained-checked", "buffer-reused"}},
 			{Name: "send-outcomes-per-kind", Mode: "enum", Reset: kit.ResetGlobals, Body: sendOutcomes,
